@@ -451,6 +451,19 @@ let suite_vfn (line : string) : string =
             let lo = if a2 = "-" then None else Some (parse_bytes a2) in
             let hi = if a3 = "-" then None else Some (parse_bytes a3) in
             if has_overlap_in_level v (nat_of_int (int_of_string a1)) lo hi then "1" else "0"
+        | "score" ->
+            Printf.sprintf "%d %d" (int_of_nat (size_compaction_level v)) (if requires_size_compaction v then 1 else 0)
+        | "samples" ->
+            let keys = List.map parse_ikey (split_nonempty ',' a1) in
+            let res = read_samples v (ss_init v) keys in
+            let show (a, st) = (if a then "1" else "0") ^ (match st with Some (nn, l) -> "@" ^ string_of_n nn ^ "/" ^ string_of_int (int_of_nat l) | None -> "@-") in
+            let rec rle acc last count = function
+              | [] -> List.rev (if count > 0 then (last ^ "x" ^ string_of_int count) :: acc else acc)
+              | x :: r -> let cur = show x in
+                  if cur = last then rle acc last (count + 1) r
+                  else rle (if count > 0 then (last ^ "x" ^ string_of_int count) :: acc else acc) cur 1 r in
+            let out = rle [] "" 0 res in
+            if out = [] then "-" else String.concat "," out
         | "getfiles" -> levels_str (get_overlapping_files v (parse_ikey a1))
         | "oci" -> nums (overlapping_inputs v (nat_of_int (int_of_string a1)) (opt_ikey a2) (opt_ikey a3))
         | "plmo" ->
